@@ -630,7 +630,7 @@ Qed.
 (* non-vacuity: a small well-formed story loads, with and without repair *)
 Definition tiny_story : json :=
   w_story (JInt 21)
-    (JArr [JArr [js "^Hello"; js "\n"; JArr [js "done"; w_obj [("#n", js "g-0")]]; JNull];
+    (JArr [JArr [js "^Hello"; JStr [c_nl]; JArr [js "done"; w_obj [("#n", js "g-0")]]; JNull];
            js "done"; w_obj [("#f", JInt 1)]])
     (w_obj [("l", w_obj [("a", JInt 1); ("b", JInt 2)])]).
 Example tiny_story_loads : is_ok (load_story tiny_story) = true /\ is_ok (load_story_repaired tiny_story) = true.
